@@ -125,11 +125,12 @@ def run(ctx: Ctx) -> None:
         add("equal", "scaling-strict:hex", codes=vals, tol=3000)
     # with a neighbour: renumbering either cell must not change the first cell's quality
     for name, nb in cat["neighbours"].items():
-        base = [cat["hex"][name][k] for k in range(8)]
+        base = [cat["hex"][name.split("_")[0]][k] for k in range(8)]
         nbr = [nb[k] for k in range(8)]
         vals, vals2 = [], []
-        for perm in cat["hexperms"][:: (3 if ctx.tier == "quick" else 1)]:
-            for perm2 in (cat["hexperms"][0], cat["hexperms"][rng.randrange(24)], cat["hexperms"][rng.randrange(24)]):
+        # all 24 x 24 numberings of the pair (which sides of the two cells meet decides how the pair is found)
+        for perm in cat["hexperms"]:
+            for perm2 in cat["hexperms"]:
                 a = [base[perm[k]] for k in range(8)]
                 b = [nbr[perm2[k]] for k in range(8)]
                 v = q_safe(lambda: hex_quality(a, b), f"hex+neighbour:{name}")
@@ -189,7 +190,7 @@ def run(ctx: Ctx) -> None:
                         codes=[code(after[k]), code(fresh[k])], tol=50)
 
     for name, nb in cat["neighbours"].items():
-        base = [list(map(float, cat["hex"][name][k])) for k in range(8)]
+        base = [list(map(float, cat["hex"][name.split("_")[0]][k])) for k in range(8)]
         nbr = [list(map(float, nb[k])) for k in range(8)]
         pts = base + [p for p in nbr if p not in base]
         moved_grid("hex", pts, [list(range(8)), [pts.index(p) for p in nbr]], f"hex+neighbour:{name}")
@@ -244,6 +245,6 @@ def run(ctx: Ctx) -> None:
     for r in recs:
         ctx.validated()
         if not verdicts[r["id"]]:
-            ctx.violation(f"quality:{meta[r['id']]}", f"quality values differ within {meta[r['id']]}: codes {r.get('codes', r.get('rows'))}", r)
+            ctx.violation(f"quality:{meta[r['id']]}", f"quality values differ within {meta[r['id']]}: " + (f"{len(set(r['codes']))} different codes in {len(r['codes'])} values, e.g. {sorted(set(r['codes']))[:4]}" if len(r.get("codes", [])) > 30 else f"codes {r.get('codes', r.get('rows'))}"), r)
     ctx.sample({"what": meta[1], "codes": recs[0]["codes"][:6]})
     ctx.exhaustive = False
